@@ -52,6 +52,25 @@ func (fx *FnExec) Run() (obls []*Obligation, err error) {
 		return nil, fmt.Errorf("no body")
 	}
 	order := fx.prepareCFG()
+	// a loop clause that names a loop the function does not have would be dropped silently
+	if fx.C != nil {
+		for k, invs := range fx.C.LoopInv {
+			written := false // clauses added by a family for "every loop" carry no source line
+			for _, e := range invs {
+				if e.Line > 0 {
+					written = true
+				}
+			}
+			if k > len(fx.loopHead) && written {
+				fx.outside = append(fx.outside, fmt.Sprintf("contract has invariants for loop %d but the function has %d loop(s): the clause would not be checked", k, len(fx.loopHead)))
+			}
+		}
+		for k := range fx.C.LoopDec {
+			if k > len(fx.loopHead) {
+				fx.outside = append(fx.outside, fmt.Sprintf("contract has a decreases clause for loop %d but the function has %d loop(s)", k, len(fx.loopHead)))
+			}
+		}
+	}
 	entry := &blockState{pc: "true", heap: heapState{}, gh: map[string]string{}}
 	fx.cur = entry
 	fx.curBlock = fn.Blocks[0]
@@ -98,6 +117,14 @@ func (fx *FnExec) Run() (obls []*Obligation, err error) {
 		fx.execBlock(b)
 	}
 	fx.nameObligations()
+	// an atcall clause whose callee is never called here asserts nothing: report it
+	if fx.C != nil {
+		for k, ac := range fx.C.AtCall {
+			if !fx.atcallHit[k] {
+				fx.outside = append(fx.outside, fmt.Sprintf("atcall %s: the function has no call of %s, the clause %q would not be checked", ac.Callee, ac.Callee, truncate(ac.Expr.Text, 60)))
+			}
+		}
+	}
 	return fx.obls, nil
 }
 
@@ -517,6 +544,14 @@ func (fx *FnExec) enterLoop(b *ssa.BasicBlock, li *loopInfo, st *blockState) {
 	// 2. havoc: phis and modified heaps
 	mods, iterFresh, all := fx.modifiedInLoop(li)
 	acntEntry := fx.allocCount()
+	// private objects that the loop body writes change from one iteration to the next
+	fx.noFrame = map[string]bool{}
+	for _, po := range fx.private {
+		if po.def == nil || writtenInLoop(po.def, li) {
+			fx.noFrame[po.ref] = true
+		}
+	}
+	defer func() { fx.noFrame = nil }()
 	if all {
 		for name := range fx.W.heapSorts {
 			fx.havocHeap(name)
@@ -757,6 +792,11 @@ func (fx *FnExec) execInstr(in ssa.Instruction) {
 	case *ssa.Alloc:
 		v := fx.allocOf(x.Type().Underlying().(*types.Pointer).Elem(), sanitize(x.Name()))
 		fx.setReg(x, v)
+		// a local array that is only ever indexed in place is private to this activation: nothing
+		// the function calls can read or write it
+		if at, ok := x.Type().Underlying().(*types.Pointer).Elem().Underlying().(*types.Array); ok && v.P != nil && v.P.Kind == PArr && localArrayPrivate(x) {
+			fx.private = append(fx.private, privateObj{ref: v.P.Arr, heaps: []string{fx.W.elemHeapName(at.Elem())}, def: x})
+		}
 	case *ssa.FieldAddr:
 		base := fx.val(x.X)
 		pt := x.X.Type().Underlying().(*types.Pointer).Elem()
@@ -812,7 +852,7 @@ func (fx *FnExec) execInstr(in ssa.Instruction) {
 		fx.setReg(x, Val{S: r})
 		if !escapes(x) {
 			a, b, c := fx.W.mapHeapNames(mt)
-			fx.private = append(fx.private, privateObj{ref: r, heaps: []string{a, b, c}})
+			fx.private = append(fx.private, privateObj{ref: r, heaps: []string{a, b, c}, def: x})
 		}
 	case *ssa.MapUpdate:
 		fx.execMapUpdate(x)
@@ -979,6 +1019,7 @@ func (fx *FnExec) execLookup(x *ssa.Lookup) {
 	base := fx.term(fx.val(x.X))
 	idx := fx.term(fx.val(x.Index))
 	if mt, ok := x.X.Type().Underlying().(*types.Map); ok {
+		fx.hashableKey(x, mt, idx)
 		dom, val, _ := fx.mapHeaps(mt)
 		has := "(select (select " + dom + " " + base + ") " + idx + ")"
 		raw := "(select (select " + val + " " + base + ") " + idx + ")"
@@ -1023,11 +1064,137 @@ func (fx *FnExec) mapLen(mt *types.Map, m string) string {
 	return ite("(> "+m+" 0)", n, "0")
 }
 
+// tagOf returns the tag of a dynamic type and states, once per function, whether values of that type
+// can be hashed (used as map keys).
+func (fx *FnExec) tagOf(t types.Type) int {
+	id := fx.W.typeTag(t)
+	if fx.hashStated == nil {
+		fx.hashStated = map[int]bool{}
+		fx.assumeGlobal("(hashable 0)")
+	}
+	if !fx.hashStated[id] {
+		fx.hashStated[id] = true
+		if types.Comparable(t) {
+			fx.assumeGlobal(fmt.Sprintf("(hashable %d)", id))
+		} else {
+			fx.assumeGlobal(fmt.Sprintf("(not (hashable %d))", id))
+		}
+	}
+	return id
+}
+
+// localArrayPrivate: the array variable is used only through element addresses that are loaded from
+// or stored to directly (never sliced, passed, captured or stored).
+func localArrayPrivate(al *ssa.Alloc) bool {
+	refs := al.Referrers()
+	if refs == nil {
+		return false
+	}
+	for _, r := range *refs {
+		switch x := r.(type) {
+		case *ssa.DebugRef:
+		case *ssa.IndexAddr:
+			if x.X != ssa.Value(al) {
+				return false
+			}
+			rr := x.Referrers()
+			if rr == nil {
+				return false
+			}
+			for _, r2 := range *rr {
+				switch y := r2.(type) {
+				case *ssa.UnOp:
+					if y.Op != token.MUL {
+						return false
+					}
+				case *ssa.Store:
+					if y.Addr != ssa.Value(x) {
+						return false // the element address itself is stored somewhere
+					}
+				case *ssa.DebugRef:
+				default:
+					return false
+				}
+			}
+		case *ssa.Store:
+			// whole-array initialisation: *al = [N]T{...} (the array value is stored into the variable)
+			if x.Addr != ssa.Value(al) {
+				return false
+			}
+		default:
+			return false
+		}
+	}
+	return true
+}
+
+// writtenInLoop: some instruction of the loop body writes the private object allocated by def
+// (a private object is only ever written through the instructions that use its allocation).
+func writtenInLoop(def ssa.Value, li *loopInfo) bool {
+	refs := def.Referrers()
+	if refs == nil {
+		return true
+	}
+	var visit func(v ssa.Value, refs []ssa.Instruction, depth int) bool
+	visit = func(v ssa.Value, refs []ssa.Instruction, depth int) bool {
+		if depth > 4 {
+			return true
+		}
+		for _, r := range refs {
+			in := li.body[r.Block().Index]
+			switch x := r.(type) {
+			case *ssa.MapUpdate:
+				if in && x.Map == v {
+					return true
+				}
+			case *ssa.Store:
+				if in && x.Addr == v {
+					return true
+				}
+			case *ssa.Call:
+				if b, ok := x.Call.Value.(*ssa.Builtin); ok && in {
+					switch b.Name() {
+					case "delete", "clear", "copy", "append":
+						return true
+					}
+				}
+			case *ssa.IndexAddr:
+				// element address of a local array: writes go through it
+				if rr := x.Referrers(); rr != nil && visit(x, *rr, depth+1) {
+					return true
+				}
+			case *ssa.FieldAddr:
+				if rr := x.Referrers(); rr != nil && visit(x, *rr, depth+1) {
+					return true
+				}
+			case *ssa.Phi:
+				if rr := x.Referrers(); rr != nil && visit(x, *rr, depth+1) {
+					return true
+				}
+			}
+		}
+		return false
+	}
+	return visit(def, *refs, 0)
+}
+
+// hashableKey: using an interface value as a map key panics when its dynamic type is not comparable
+// (slice, map, func). The obligation is generated for keys of interface type only; a struct key with
+// interface fields is not examined (stated in the trusted base).
+func (fx *FnExec) hashableKey(in ssa.Instruction, mt *types.Map, k string) {
+	if _, ok := mt.Key().Underlying().(*types.Interface); !ok {
+		return
+	}
+	// (hashable tag) is declared in spec/00_base.smt2; facts are stated where tags are introduced (tagOf)
+	fx.oblige("hash", "(hashable (i.tag "+k+"))", in, "map key of interface type has a comparable dynamic type (runtime error: hash of unhashable type)")
+}
+
 func (fx *FnExec) execMapUpdate(x *ssa.MapUpdate) {
 	m := fx.term(fx.val(x.Map))
 	k := fx.term(fx.val(x.Key))
 	v := fx.term(fx.val(x.Value))
 	mt := x.Map.Type().Underlying().(*types.Map)
+	fx.hashableKey(x, mt, k)
 	fx.oblige("nilmap", "(> "+m+" 0)", x, "assignment to entry in nil map")
 	if fx.onStore != nil {
 		fx.onStore(fx, x, &Place{Kind: PCell, Ref: m, Elem: mt}, Val{})
@@ -1062,6 +1229,9 @@ func (fx *FnExec) execUnOp(x *ssa.UnOp) {
 	switch x.Op {
 	case token.MUL: // load
 		pl := fx.placeOf(v)
+		if pl.Kind == PStrByte {
+			fx.oblige("idx", "(and (<= 0 "+pl.Idx+") (< "+pl.Idx+" (slen "+pl.Ref+")))", x, "read through unsafe string pointer stays inside the string")
+		}
 		if fx.onLoad != nil {
 			fx.onLoad(fx, x, pl)
 		}
@@ -1129,6 +1299,11 @@ func (fx *FnExec) execBinOp(x *ssa.BinOp) {
 			fx.setReg(x, Val{S: fx.havoc("bop", fx.sortOf(x.Type()))})
 		}
 	case "Str":
+		if (x.Op == token.EQL || x.Op == token.NEQ) && fx.C != nil && fx.C.StringContent {
+			// strings are equal exactly when they have the same bytes (instance of extensionality
+			// for the two strings compared here)
+			fx.assume("(= " + eq(a, b) + " (and (= (slen " + a + ") (slen " + b + ")) (forall ((qk Int)) (=> (and (<= 0 qk) (< qk (slen " + a + "))) (= (sat " + a + " qk) (sat " + b + " qk))))))")
+		}
 		switch x.Op {
 		case token.EQL:
 			fx.defReg(x, eq(a, b))
@@ -1393,7 +1568,7 @@ func (fx *FnExec) unbox(t types.Type, pay string) string {
 
 func (fx *FnExec) execMakeInterface(x *ssa.MakeInterface) {
 	v := fx.val(x.X)
-	tag := fx.W.typeTag(x.X.Type())
+	tag := fx.tagOf(x.X.Type())
 	pay := fx.box(x.X.Type(), fx.term(v))
 	fx.defReg(x, fmt.Sprintf("(mk-iface %d %s)", tag, pay))
 	// boxing a slice whose backing array this activation created (or an empty one): recorded for
@@ -1418,7 +1593,7 @@ func (fx *FnExec) execTypeAssert(x *ssa.TypeAssert) {
 		}
 		res = v
 	} else {
-		tag := fx.W.typeTag(x.AssertedType)
+		tag := fx.tagOf(x.AssertedType)
 		ok = fmt.Sprintf("(= (i.tag %s) %d)", v, tag)
 		res = fx.unbox(x.AssertedType, "(i.pay "+v+")")
 	}
@@ -1441,6 +1616,13 @@ func (fx *FnExec) execTypeAssert(x *ssa.TypeAssert) {
 
 func (fx *FnExec) execConvert(x *ssa.Convert) {
 	v := fx.val(x.X)
+	if v.P != nil && v.P.Kind == PStrByte {
+		// *byte <-> unsafe.Pointer conversions keep the string-data place
+		nv := v
+		nv.T = x.Type()
+		fx.regs[x] = nv
+		return
+	}
 	from, to := fx.sortOf(x.X.Type()), fx.sortOf(x.Type())
 	a := fx.term(v)
 	switch {
